@@ -100,7 +100,13 @@ def gen_ruleset(rng, max_rules=6, max_ns=3, depth=2, allow_for=True, cond_kinds=
             r["ord_index"] = ordinary_count
             ordinary_count += 1
         rules.append(r)
-    return json.loads(json.dumps({"rules": rules, "nns": nns}, default=lambda b: list(b)))
+    # namespaces exist only once a rule is added to them: number them by first use
+    remap = {}
+    for r in rules:
+        if r["ns"] not in remap:
+            remap[r["ns"]] = len(remap)
+        r["ns"] = remap[r["ns"]]
+    return json.loads(json.dumps({"rules": rules, "nns": len(remap)}, default=lambda b: list(b)))
 
 
 def poison_cond(rng, nstr):
@@ -151,7 +157,23 @@ def poison_cond(rng, nstr):
         if c == 4:
             return "expr", r.choice(UNDEF_I)
         return "expr", ("int", r.choice([0, 1, 2, n, n + 1]))
-    t = r.below(8)
+    t = r.below(10)
+    if t >= 8:
+        # sibling loops: the first one's body needs strings, the second one only reads its own identifier
+        # (bound identifiers must not leak from one loop to the next in the pass done before the string scan)
+        def loop(body, lo, hi):
+            k, se = sel(3)
+            if r.chance(1, 2):
+                return ("forrange", k, se, ("int", lo), ("int", hi), body)
+            return ("forlist", k, se, [("int", z) for z in range(lo, hi + 1)], body)
+        a = r.choice([0, 1, 3])
+        first = loop(sdep_bool(0), a, a + r.choice([0, 1, 2]))
+        b = r.choice([0, 1, 2])
+        probe = r.choice([("bin", "eq", ("bound", 0), ("int", r.choice([0, 1, 2, 3, 4, 5]))),
+                          ("bin", "ge", ("bound", 0), ("int", r.choice([2, 3, 4]))),
+                          ("bin", "eq", ("readint", "uint8", ("bound", 0)), ("int", r.choice([97, 98, 99, 0])))])
+        second = loop(probe, b, b + r.choice([0, 1]))
+        return (r.choice(["or", "and"]), [first, second] if r.chance(3, 4) else [second, first])
     if t == 0:
         k, se = sel(3)
         return ("forlist", k, se, [elem() for _ in range(r.range(1, 4))], r.choice([sdep_bool(0), const_bool()]))
